@@ -14,6 +14,11 @@
 //!       3 `store.set(Data { .. })`                   (the root, whole value)
 //!       4 `store.group().rows().set(new)`            (the keyed field)
 //!       5 `store.group().update(|g| g.rows = new)`   (the parent)
+//!       6 a BATCHED update: `rows().update_untracked(|r| *r = new)` (nobody is notified), then every retained row
+//!         writes `label += 1` through its own `AtKeyed` handle and the harness takes that 1 away again from the item
+//!         of the row's key (found by id, untracked), then `rows().notify()`: nothing changes if every handle
+//!         resolves to the item of its key while the key map has not been refreshed by an iteration yet; a handle
+//!         that reads another item's label is reported as dead
 //! After every list (and a tick of the executor) the `label` of every rendered row's item is
 //! incremented and the executor ticked again, through
 //!   bump 0 the row's own `AtKeyed` handle: `row.label().update(|n| *n += 1)`
@@ -61,8 +66,10 @@ thread_local! {
     static LOG: RefCell<Vec<Sexp>> = RefCell::new(vec![]);
     static GEN: RefCell<i64> = RefCell::new(0);
     /// key -> (gen, stored value, bump-through-the-handle, handle-is-dead)
-    static ROWS: RefCell<HashMap<i64, (i64, StoredValue<i64>, std::rc::Rc<dyn Fn()>, std::rc::Rc<dyn Fn() -> bool>)>> =
+    static ROWS: RefCell<HashMap<i64, (i64, StoredValue<i64>, std::rc::Rc<dyn Fn()>, std::rc::Rc<dyn Fn() -> bool>, std::rc::Rc<dyn Fn() -> Option<i64>>)>> =
         RefCell::new(HashMap::new());
+    /// rows whose handle read another item's label during a batched update
+    static STALE: RefCell<Vec<i64>> = RefCell::new(vec![]);
 }
 
 #[derive(Debug, Clone, Store)]
@@ -106,7 +113,10 @@ macro_rules! store_case {
                 let r2 = Clone::clone(&row);
                 let dead: std::rc::Rc<dyn Fn() -> bool> =
                     std::rc::Rc::new(move || Clone::clone(&r2).label().try_get_untracked().is_none());
-                ROWS.with(|r| r.borrow_mut().insert(k, (g, stored, bump, dead)));
+                let r3 = Clone::clone(&row);
+                let read: std::rc::Rc<dyn Fn() -> Option<i64>> =
+                    std::rc::Rc::new(move || Clone::clone(&r3).label().try_get_untracked());
+                ROWS.with(|r| r.borrow_mut().insert(k, (g, stored, bump, dead, read)));
                 LOG.with(|l| l.borrow_mut().push(Sexp::from_nums([3, k, g])));
                 on_cleanup(move || LOG.with(|l| l.borrow_mut().push(Sexp::from_nums([4, k, g]))));
                 li().child(move || format!("{k}.{g}.{}", Clone::clone(&row).label().get()))
@@ -143,6 +153,24 @@ macro_rules! store_case {
                     let new: Vec<Row> =
                         stored(l).iter().map(|k| Row { id: *k, label: old.get(k).copied().unwrap_or(0) }).collect();
                     match op % 10 {
+                        6 => {
+                            let retained: Vec<i64> = l.iter().copied().filter(|k| old.contains_key(k)).collect();
+                            ($rows)(Clone::clone(&store)).update_untracked(|r| *r = new);
+                            for k in &retained {
+                                let (_, _, bump, _, _) = ROWS.with(|r| r.borrow()[k].clone());
+                                let reads = ROWS.with(|r| r.borrow()[k].4.clone())();
+                                if reads != Some(old[k]) {
+                                    STALE.with(|x| x.borrow_mut().push(*k));
+                                }
+                                bump();
+                                ($rows)(Clone::clone(&store)).update_untracked(|r| {
+                                    if let Some(row) = r.iter_mut().find(|row| row.id == *k) {
+                                        row.label -= 1;
+                                    }
+                                });
+                            }
+                            ($rows)(Clone::clone(&store)).notify();
+                        }
                         0 => *($rows)(Clone::clone(&store)).write() = new,
                         1 => ($w1)(Clone::clone(&store), new),
                         2 => ($w2)(Clone::clone(&store), new),
@@ -157,9 +185,10 @@ macro_rules! store_case {
                 let mut flags = vec![];
                 let mut bumps = vec![];
                 for k in l {
-                    let (g, stored, bump, dead) = ROWS.with(|r| r.borrow()[k].clone());
+                    let (g, stored, bump, dead, _) = ROWS.with(|r| r.borrow()[k].clone());
                     let vd = stored.try_get_value().is_none();
-                    flags.push(Sexp::from_nums([*k, g, dead() as i64, vd as i64]));
+                    let stale = STALE.with(|x| x.borrow().contains(k));
+                    flags.push(Sexp::from_nums([*k, g, (dead() || stale) as i64, vd as i64]));
                     bumps.push(bump);
                 }
                 match (op / 10) % 10 {
@@ -167,6 +196,7 @@ macro_rules! store_case {
                     1 => ($rows)(Clone::clone(&store)).write().iter_mut().for_each(|r| r.label += 1),
                     _ => ($bump_root)(Clone::clone(&store)),
                 }
+                STALE.with(|x| x.borrow_mut().clear());
                 tick();
                 let (b, ids_b) = visible(&parent, &ids_a, false);
                 before = ids_b;
@@ -185,6 +215,7 @@ pub fn run(c: &Sexp) -> Sexp {
     LOG.with(|l| l.borrow_mut().clear());
     GEN.with(|g| *g.borrow_mut() = 0);
     ROWS.with(|r| r.borrow_mut().clear());
+    STALE.with(|x| x.borrow_mut().clear());
     let data = |rows: Vec<Row>| Data { tag: 0, group: Group { n: 0, rows } };
     let variant = c.at(4).list().first().map(|o| o.num() % 10).unwrap_or(0);
     let out = match variant {
